@@ -240,10 +240,29 @@ func (me *multiEndpoint) switchFromTo(f, t *endpoint) {
 	timeAfterFunc(me.switchingDelay, func() {
 		me.Lock()
 		defer me.Unlock()
-		if e, ok := me.endpoints[me.future]; ok && e.status == available {
+		// The scheduled switch may be outdated by now: only follow it if it is
+		// still the switch maybeUpdateCurrent would make.
+		if e := me.switchTarget(); e != nil && e.id == me.future {
 			me.current = e.id
 		}
 	})
+}
+
+// Returns the top-priority available endpoint unless the current endpoint is recovering and
+// no higher priority endpoint is available. Returns nil if there is nothing to switch to.
+//
+// Must be run under me.Lock.
+func (me *multiEndpoint) switchTarget() *endpoint {
+	var topA *endpoint
+	for _, e := range me.endpoints {
+		if e.status == available && (topA == nil || topA.priority > e.priority) {
+			topA = e
+		}
+	}
+	if c, ok := me.endpoints[me.current]; ok && c.status == recovering && (topA == nil || topA.priority > c.priority) {
+		return nil
+	}
+	return topA
 }
 
 // SetEndpointAvailability updates the state of an endpoint.
